@@ -68,13 +68,17 @@ type RecreateObs struct {
 
 // RecoverResp is the recovery child's answer.
 type RecoverResp struct {
-	Panic        string                 `json:"panic,omitempty"`
-	OpenErr      string                 `json:"open_err,omitempty"` // disk.NewStore error
-	ListComplete []string               `json:"list_complete"`
-	ListAny      []string               `json:"list_any"`
-	Reserved     uint64                 `json:"reserved"`
-	Blobs        map[string]BlobObs     `json:"blobs"`
-	Recreate     map[string]RecreateObs `json:"recreate"`
+	Panic        string   `json:"panic,omitempty"`
+	OpenErr      string   `json:"open_err,omitempty"` // disk.NewStore error
+	ListComplete []string `json:"list_complete"`
+	ListAny      []string `json:"list_any"`
+	Reserved     uint64   `json:"reserved"`
+	// a second clean restart on the recovered directory (before the re-creation phase)
+	SecondOpenErr      string                 `json:"second_open_err,omitempty"`
+	SecondListAny      []string               `json:"second_list_any"`
+	SecondListComplete []string               `json:"second_list_complete"`
+	Blobs              map[string]BlobObs     `json:"blobs"`
+	Recreate           map[string]RecreateObs `json:"recreate"`
 }
 
 // MDKinds are the metadata types exercised (suffixes as kraken defines them).
